@@ -123,6 +123,40 @@ fn wrappers() -> Vec<Value> {
             out.push(json!({"wrapper": which, "reject": true, "value": format!("arity {bad}"), "direct_same": rejected(&t), "wire_same_repr": wire.as_ref().map(|t2| rejected(t2)).unwrap_or(false), "term": denote(&t), "wire_back_term": Value::Null}));
         }
     }
+    // atoms that mean something to somebody (absent / boolean / result markers) as ordinary field values of every wrapper: a function
+    // called `undefined`, a key `nil`, a mismatched term `false` ... are values like any other
+    for s in ["undefined", "true", "false", "null", "none", "ok", "error", "nil", "", "Elixir.X", "__struct__"] {
+        let at = OwnedTerm::Atom(Atom::new(s));
+        if s != "nil" {
+            // (in an optional field the atom nil IS the absent value)
+            rt!("function_clause_error", FunctionClauseError { module: Some("M".into()), function: Some(s.to_string()), arity: Some(1), args: Some(at.clone()) }, FunctionClauseError);
+            rt!("function_clause_error", FunctionClauseError { module: None, function: Some(s.to_string()), arity: None, args: None }, FunctionClauseError);
+            rt!("function_clause_error", FunctionClauseError { module: None, function: None, arity: None, args: Some(at.clone()) }, FunctionClauseError);
+        }
+        rt!("key_error", KeyError::new(at.clone(), at.clone()), KeyError);
+        rt!("key_error", KeyError::with_message(at.clone(), OwnedTerm::Map(Default::default()), s), KeyError);
+        rt!("match_error", MatchError::new(at.clone()), MatchError);
+        rt!("bad_map_error", BadMapError::new(at.clone()), BadMapError);
+        rt!("bad_function_error", BadFunctionError::new(at.clone()), BadFunctionError);
+        rt!("case_clause_error", CaseClauseError::new(at.clone()), CaseClauseError);
+        rt!("with_clause_error", WithClauseError::new(at.clone()), WithClauseError);
+        rt!("undefined_function_error", UndefinedFunctionError::new("M", s, 2), UndefinedFunctionError);
+        rt!("undefined_function_error", UndefinedFunctionError::with_reason("M", "f", 2, s), UndefinedFunctionError);
+        rt!("argument_error", ArgumentError::new(s), ArgumentError);
+        rt!("runtime_error", RuntimeError::new(s), RuntimeError);
+        rt!("arithmetic_error", ArithmeticError::new(s), ArithmeticError);
+        rt!("map_set", ElixirMapSet::from_values(vec![at.clone(), OwnedTerm::Tuple(vec![at.clone()])]), ElixirMapSet);
+        // such an atom where a number belongs is a wrong shape
+        if s != "nil" {
+            for which in ["function_clause_error", "undefined_function_error"] {
+                let t: OwnedTerm = if which == "function_clause_error" { FunctionClauseError::new("M", "f", 3, OwnedTerm::Nil).into() } else { UndefinedFunctionError::new("M", "f", 3).into() };
+                let t = match t { OwnedTerm::Map(mut m) => { m.insert(OwnedTerm::Atom(Atom::new("arity")), at.clone()); OwnedTerm::Map(m) } o => o };
+                let rejected = |t: &OwnedTerm| if which == "function_clause_error" { FunctionClauseError::from_term(t).is_none() } else { UndefinedFunctionError::from_term(t).is_none() };
+                let wire = erltf::encode(&t).ok().and_then(|b| erltf::decode(&b).ok());
+                out.push(json!({"wrapper": which, "reject": true, "value": format!("arity :{s}"), "direct_same": rejected(&t), "wire_same_repr": wire.as_ref().map(|t2| rejected(t2)).unwrap_or(false), "term": denote(&t), "wire_back_term": Value::Null}));
+            }
+        }
+    }
     rt!("cond_clause_error", CondClauseError::new(), CondClauseError);
     rt!("argument_error", ArgumentError::new("bad argument é"), ArgumentError);
     rt!("runtime_error", RuntimeError::new(""), RuntimeError);
